@@ -385,6 +385,8 @@ func mkValueSpecial(name string) (ast.Type, bool) {
 		base = ast.NewStruct(ast.NewStructField("a", ast.String()))
 	case parts[2] == string(ast.KindRef):
 		base = ast.NewRef("p", "E")
+	case strings.HasPrefix(parts[2], "ref>"): // a reference to a given support object
+		base = ast.NewRef("p", strings.TrimPrefix(parts[2], "ref>"))
 	case parts[2] == string(ast.KindEnum):
 		base = ast.NewEnum([]ast.EnumValue{{Type: ast.String(), Name: "a", Value: "a"}, {Type: ast.String(), Name: "b", Value: "b"}})
 	case parts[2] == string(ast.KindDisjunction):
@@ -481,6 +483,9 @@ func cycleSupport() []irgen.ObjSpec {
 		{Name: "AliasS", T: irgen.Ref("p.S")},
 		{Name: "Rec", T: irgen.Struct1("next", true, irgen.Ref("p.Rec"))},
 		{Name: "Dangling", T: irgen.Ref("p.Missing")},
+		// a struct whose constant-reference field is not the last one
+		{Name: "CS", T: irgen.StructN([]irgen.Field{{Name: "mode", Required: true}, {Name: "label", Required: true}, {Name: "size", Required: false}}, []irgen.Term{irgen.ConstRef("p.E"), irgen.S("string"), irgen.S("int64")})},
+		{Name: "MAlias", T: irgen.Map(irgen.S("string"))},
 		// aliases that are recursive through an array / a map
 		{Name: "ArrSelf", T: irgen.Array(irgen.Ref("p.ArrSelf"))},
 		{Name: "MapSelf", T: irgen.Map(irgen.Ref("p.MapSelf"))},
@@ -508,7 +513,7 @@ func irSpace(thorough bool, reachable map[string]bool, values []string) []irInpu
 	if thorough {
 		leaves = append([]irgen.Term{}, irgen.DefaultLeaves()...)
 	}
-	refs := []string{"p.Missing", "q.Missing", "p.Root", "p.Cyc1", "p.Count", "p.AliasS", "p.Rec", "p.Dangling", "p.T", "p.ArrSelf", "p.MapSelf", "p.ArrA", "p.MapArr"}
+	refs := []string{"p.Missing", "q.Missing", "p.Root", "p.Cyc1", "p.Count", "p.AliasS", "p.Rec", "p.Dangling", "p.T", "p.ArrSelf", "p.MapSelf", "p.ArrA", "p.MapArr", "p.CS"}
 	if thorough {
 		refs = append(refs, "p.Self")
 	}
@@ -560,6 +565,11 @@ func irSpace(thorough bool, reachable map[string]bool, values []string) []irInpu
 		// (a cycle anywhere in the package would mask everything else)
 		used := map[string]bool{}
 		need(t, used)
+		for _, target := range []string{"CS", "MAlias"} {
+			if strings.Contains(t.String(), "|ref>"+target+"|") {
+				used[target] = true
+			}
+		}
 		for _, o := range cycleSupport() {
 			if used[o.Name] {
 				spec.Pkgs[0].Objects = append(spec.Pkgs[0].Objects, o)
@@ -571,6 +581,13 @@ func irSpace(thorough bool, reachable map[string]bool, values []string) []irInpu
 	// one IR per observed (role, kind, Go type) value triple (thorough: also
 	// inside an array, a map and a union)
 	for _, v := range values {
+		if strings.HasPrefix(v, "v|default|ref|") {
+			// the same default on references to a struct, to a struct with a
+			// constant reference, to a map alias
+			for _, target := range []string{"S", "CS", "MAlias"} {
+				terms = append(terms, special(strings.Replace(v, "|ref|", "|ref>"+target+"|", 1)))
+			}
+		}
 		t := special(v)
 		terms = append(terms, t)
 		if thorough {
@@ -582,7 +599,78 @@ func irSpace(thorough bool, reachable map[string]bool, values []string) []irInpu
 		add("field", irgen.WithField(t, true), t)
 		add("optfield", irgen.WithField(t, false), t)
 	}
+	out = append(out, twoPackageSpace(thorough)...)
 	sort.SliceStable(out, func(i, j int) bool { return out[i].Size < out[j].Size })
+	return out
+}
+
+// twoPackageSpace: IRs made of two packages, p (Root + support) referring to
+// the objects of q from every position grammar I has (as a field, inside
+// arrays/maps/structs, as FIRST and as second branch of unions with local
+// scalars, local aliases and other references to q, in intersections), and q
+// referring back to p. Reference resolution that stays inside the schema
+// being visited only goes wrong on such IRs.
+func twoPackageSpace(thorough bool) []irInput {
+	qObjects := []irgen.ObjSpec{
+		{Name: "ID", T: irgen.S("string")},
+		{Name: "Count", T: irgen.S("int64")},
+		{Name: "E", T: irgen.Enum("str")},
+		{Name: "K", T: irgen.Const("str")},
+		{Name: "S", T: irgen.StructN([]irgen.Field{{Name: "kind", Required: true}, {Name: "x", Required: false}}, []irgen.Term{irgen.Const("str"), irgen.S("string")})},
+		{Name: "T", T: irgen.StructN([]irgen.Field{{Name: "kind", Required: true}, {Name: "y", Required: false}}, []irgen.Term{irgen.Const("int"), irgen.S("int64")})},
+		{Name: "MA", T: irgen.Map(irgen.S("string"))},
+		{Name: "LA", T: irgen.Array(irgen.S("string"))},
+		{Name: "U", T: irgen.Disj(irgen.S("string"), irgen.S("int64"))},
+		{Name: "Al", T: irgen.Ref("q.ID")},
+		{Name: "AlS", T: irgen.Ref("q.S")},
+		{Name: "Back", T: irgen.Ref("p.A")},
+		{Name: "BackS", T: irgen.Struct1("up", false, irgen.Ref("p.Root"))},
+	}
+	var leaves []irgen.Term
+	for _, o := range qObjects {
+		leaves = append(leaves, irgen.Ref("q."+o.Name))
+	}
+	leaves = append(leaves, irgen.ConstRef("q.E"), irgen.S("string"), irgen.S("int64"), irgen.Ref("p.A"), irgen.Ref("p.S"))
+	cfg := irgen.Config{Depth: 2, Leaves: leaves,
+		DisjWith: []irgen.Term{irgen.S("string"), irgen.S("int64"), irgen.Ref("p.A"), irgen.Ref("p.S"), irgen.Ref("q.ID"), irgen.Ref("q.Count"), irgen.Ref("q.S"), irgen.Ref("q.T"), irgen.Ref("q.Al"), irgen.Null()},
+		Wrappers: []string{"array", "map", "struct-req", "struct-opt", "nullable", "disj", "inter"}}
+	if thorough {
+		cfg.Depth = 3
+		cfg.InnerLeaves = []irgen.Term{irgen.Ref("q.ID"), irgen.Ref("q.S"), irgen.S("string")}
+	}
+	var out []irInput
+	for _, t := range irgen.Types(cfg) {
+		if !strings.Contains(t.String(), "q.") {
+			continue // single-package terms are the main space's
+		}
+		for _, place := range []string{"root", "field", "optfield"} {
+			var spec irgen.SchemaSpec
+			switch place {
+			case "root":
+				spec = irgen.WithRoot(t)
+			case "field":
+				spec = irgen.WithField(t, true)
+			default:
+				spec = irgen.WithField(t, false)
+			}
+			for _, qFirst := range []bool{false, true} {
+				if qFirst && !thorough {
+					continue
+				}
+				s2 := spec
+				q := irgen.PkgSpec{Pkg: "q", Objects: qObjects}
+				name := "2pkg:" + place + ":" + t.String()
+				if qFirst {
+					s2.Pkgs = []irgen.PkgSpec{q, spec.Pkgs[0]}
+					name = "2pkg(q first):" + place + ":" + t.String()
+				} else {
+					s2.Pkgs = []irgen.PkgSpec{spec.Pkgs[0], q}
+				}
+				s2.Name = name
+				out = append(out, irInput{ID: name, Spec: s2, Size: t.Size()*4 + len(place) + 2})
+			}
+		}
+	}
 	return out
 }
 
